@@ -22,7 +22,7 @@ Run(kind, steps, i) == IF i = 0 THEN M!InitState(kind) ELSE M!Apply(kind, Run(ki
 NoDup(s) == \A i \in 1..Len(s) : \A j \in (i + 1)..Len(s) : s[i] # s[j]
 Sorted(s) == SortSeq(s, LAMBDA a, b : a < b)
 RECURSIVE FlatU(_, _, _, _)
-FlatU(adds, d, rs, i) == IF i > Len(adds) THEN <<>> ELSE units[<<adds[i][2], d, rs>>].ids \o FlatU(adds, d, rs, i + 1)
+FlatU(adds, d, rs, i) == IF i > Len(adds) THEN <<>> ELSE units[<<adds[i][2], d, rs[1], rs[2]>>].ids \o FlatU(adds, d, rs, i + 1)   \* rs = <<ReverseSolution, arc tolerance choice>>
 
 (* class predicate of known finding S11: the differing rings pair up so that every vertex of each lies     *)
 (* within 2 units of the other's boundary (an intersection point of two nearly parallel offset edges is     *)
@@ -46,7 +46,7 @@ ObsOK(kind, steps, o, f) ==
      /\ Chk(o[3] = 1, "C11", "execute_returned_false", i)
      /\ Chk(o[2] = 1, "C12", "result_differs_from_fresh_object", i)
      /\ (kind = "off" /\ NoDup(s.adds) /\ s.adds # <<>>) =>
-          LET want == Sorted(FlatU(s.adds, steps[i][2], s.rs, 1))
+          LET want == Sorted(FlatU(s.adds, steps[i][2], <<s.rs, s.pc>>, 1))
           IN IF o[5] = want THEN TRUE
              ELSE IF OnlyRounding(o[5], want) THEN Report("C12", "offset_alone_differs_by_rounding", i)
              ELSE Report("C12", "offset_units_not_offset_as_alone", i)
@@ -58,7 +58,7 @@ THist == /\ Ev.e = "Hist"
             IN /\ Chk(Len(Ev.obs) = nex /\ Len(Ev.fresh) = nex, "HARNESS", "missing_observation", nex)
                /\ \A j \in 1..Len(Ev.obs) : ObsOK(kind, Ev.steps, Ev.obs[j], Ev.fresh[j])
 TUnit == /\ Ev.e = "OffUnit"
-         /\ units' = (<<Ev.g, Ev.d, Ev.rs>> :> [ids |-> Ev.ids, et |-> Ev.et, np |-> Ev.npaths]) @@ units
+         /\ units' = (<<Ev.g, Ev.d, Ev.rs, Ev.at>> :> [ids |-> Ev.ids, et |-> Ev.et, np |-> Ev.npaths]) @@ units
          /\ UNCHANGED rings
 TRing == Ev.e = "Ring" /\ rings' = (Ev.id :> Ev.p) @@ rings /\ UNCHANGED units
 TWorld == Ev.e = "World" /\ UNCHANGED <<units, rings>>
